@@ -58,7 +58,7 @@ func (g *gen) Add(name string, typs []types.Type) (string, error) {
 		return "", fmt.Errorf("%s does not have one argument", name)
 	}
 	if _, ok := typs[0].(*types.Signature); !ok {
-		return "", fmt.Errorf("%s, the argument, %s, is not of type func", name, typs[1])
+		return "", fmt.Errorf("%s, the argument, %s, is not of type func", name, typs[0])
 	}
 	return g.SetFuncName(name, typs[0])
 }
